@@ -9,12 +9,13 @@ from .ir import walk_stmts, walk_expr, E
 
 META = {
     'explanation': 'E-TAB over both generated C++ databases (every ZoneInfo, kZoneId constant, registry row, '
-                   'link reference folded from the clang AST) plus E-GNF/ast rules on the generator: '
-                   'hash_name is djb2, ids are computed from the emitted name, registries iterate sorted(); the two uniqueness '
-                   'guards (hash collisions, colliding C++ symbols) probe and fill their seen-tables under the same derived key and '
-                   'their raise/removal is control dependent on the probe; link items are generated only after the target was looked '
-                   'up in the emitted zones; the extractor stores a link only for a name with one definition; links to missing '
-                   'zones are detected on the link\'s own target.',
+                   'link reference folded from the clang AST) plus E-SEQ over the Python ast of the compiler (acv/pyeval.py): '
+                   'hash_name interpreted on sample names against djb2; the zone_infos / zone_registry files that '
+                   'ArduinoGenerator.generate_files() writes for a tagged miniature database carry next to every zone name the '
+                   'djb2 of that name and list the zones in name order (names chosen so that name order, symbol order and insertion '
+                   'order all differ); the collision detector, the duplicate-symbol filter, the link generator, the extractor\'s '
+                   'link table and the missing-target filter are interpreted on inputs built to trip them (a colliding pair of '
+                   'names, names sharing a symbol, a dangling link, a link defined twice, a name that is both Zone and Link).',
     'decided': 'id == djb2(name) for all zones; uniqueness; equality across zonedb/zonedbx/kZoneId constants; '
                'registry complete, duplicate-free, strictly ascending; link -> target agreement; generator shape; a freshly '
                'compiled source cannot silently emit two zones with one id or one symbol, nor a link bound to a zone other than '
